@@ -11,7 +11,8 @@ TRACE_SPEC = 'CounterTrace'
 RULE = ('stimulus = (modulo, initdef, restored value, event sequence); distinct = SHA-1 of its '
         'canonical JSON; non-trivial = the sequence wraps around the modulo at least once '
         '(an unreduced result outside [0, M) occurred) or, without modulo, changes sign')
-ASSUMPTIONS = ['numbers are integers or multiples of 1/2 (scaled by 2 for modulo 2.5), |x| < 2^30']
+ASSUMPTIONS = ['numbers are integers or multiples of 1/2 (scaled by 2 for modulo 2.5), |x| < 2^30; '
+               'with a modulo <= 2^15 also integers up to 2^90 (recorded as base-2^15 digits)']
 
 NOMOD = -1
 
@@ -80,6 +81,21 @@ def stimuli(tier, seed, ctx):
             ev = rnd.choice(['inc', 'inc', 'inc1', 'dec', 'dec1', 'put'])
             evs.append([ev, rnd.randint(0, 4) if ev in ('inc', 'dec') else mod - rnd.randint(1, 4) if ev == 'put' else 0])
         out.append(_mk(mod, 1, init, evs, None))
+    # (ii-c) amounts and values far beyond 2^53 (what a float holds exactly): Python integers are
+    # exact, so is the counter
+    for _ in range(40 if tier == 'quick' else 600):
+        mod = rnd.choice([2, 7, 10, 37, 1000, 24, 32768, rnd.randint(2, 32768)])
+        evs = []
+        for _ in range(rnd.randint(2, 10)):
+            ev = rnd.choice(['inc_big', 'dec_big', 'put_big', 'inc', 'dec1', 'inc_big'])
+            if ev.endswith('_big'):
+                a = rnd.choice([10 ** 18 + 1, 2 ** 64, 2 ** 53 + 1, rnd.randint(2 ** 53, 2 ** 90),
+                                rnd.randint(2 ** 53, 2 ** 90), 10 ** rnd.randint(16, 30) + rnd.randint(0, 9)])
+                a = a if rnd.random() < 0.7 else -a
+            else:
+                a = rnd.randint(0, 50) if ev == 'inc' else 0
+            evs.append([ev, a])
+        out.append(_mk(mod, 1, rnd.randint(0, 40), evs, None))
     # (iii) modulo = 0 is refused at construction
     out.append(_mk(0, 1, 0, []))
     return out
@@ -130,11 +146,19 @@ def execute(stim):
 
     async def script(circuit, cnt, loop, clock):
         def obs(ev, a, ok, ret):
+            big = {}
+            if ev.endswith('_big'):
+                x, ds = abs(a), []
+                while x:
+                    ds.append(x % 32768)
+                    x //= 32768
+                big = {'digits': ds[::-1] or [0], 'neg': a < 0}
+                a = 0
             out = _unscale(cnt.output, scale) if cnt.output is not edzed.UNDEF else None
             r = _unscale(ret, scale) if ok else 0
             rec = {'ev': ev, 'a': a, 'ok': ok, 'ret': r, 'out': out,
-                   'cerr': circuit.error is not None}
-            if out is None or r is None or isinstance(out, bool):
+                   'cerr': circuit.error is not None, **big}
+            if out is None or r is None or isinstance(out, bool) or abs(out) >= 2 ** 31 or abs(r) >= 2 ** 31:
                 rec['ev'] = 'bad_' + ev       # non-numeric / non-integral result: no action matches
                 rec['out'] = rec['ret'] = 0
             log.append(rec)
@@ -145,6 +169,10 @@ def execute(stim):
                 kw = {'amount': _num(a, scale)}
             elif ev == 'put':
                 kw = {'value': _num(a, scale)}
+            elif ev in ('inc_big', 'dec_big'):
+                etype, kw = ev[:3], {'amount': a}
+            elif ev == 'put_big':
+                etype, kw = 'put', {'value': a}
             elif ev in ('inc1', 'dec1'):
                 etype = ev[:-1]
                 a = scale           # default amount 1
@@ -173,6 +201,8 @@ def nontrivial(stim, trace):
         return False
     prev = None
     for e in trace['ev']:
+        if e['ev'].endswith('_big'):
+            return True
         if e['ev'] in ('inc', 'dec', 'put') and prev is not None:
             raw = {'inc': prev + e['a'], 'dec': prev - e['a'], 'put': e['a']}[e['ev']]
             if mod != NOMOD and not 0 <= raw < mod:
